@@ -217,20 +217,20 @@ def shrink(work, misses, specs, timeout=240, max_rounds=7, module="p1"):
             cur = st["cur"]
             cs = []
             if rnd == 1:
-                # every atom alone (with plain source/sink), then the plain chain, then plain src / plain wrap
+                # every atom alone (with plain source/sink) and the plain chain / plain source / plain wrap
                 for a in cur["atoms"]:
                     cs.append(strip_scen(cur, atoms=[a], src="direct", wrap="direct"))
                 if cur["wrap"] != "direct" or cur["src"] != "direct":
                     cs.append(strip_scen(cur, atoms=[{"kind": "copy", "variant": "plain"}]))
                     cs.append(strip_scen(cur, src="direct", wrap="direct"))
-            else:
-                if cur["src"] != "direct":
-                    cs.append(strip_scen(cur, src="direct"))
-                if cur["wrap"] != "direct":
-                    cs.append(strip_scen(cur, wrap="direct"))
-                if len(cur["atoms"]) > 1:
-                    for j in range(len(cur["atoms"])):
-                        cs.append(strip_scen(cur, atoms=cur["atoms"][:j] + cur["atoms"][j + 1:]))
+            # ... and, in every round, the current chain with one component removed
+            if cur["src"] != "direct":
+                cs.append(strip_scen(cur, src="direct"))
+            if cur["wrap"] != "direct":
+                cs.append(strip_scen(cur, wrap="direct"))
+            if len(cur["atoms"]) > 1:
+                for j in range(len(cur["atoms"])):
+                    cs.append(strip_scen(cur, atoms=cur["atoms"][:j] + cur["atoms"][j + 1:]))
             if not cs:
                 st["done"] = True
                 continue
@@ -271,9 +271,8 @@ def shrink(work, misses, specs, timeout=240, max_rounds=7, module="p1"):
                     if len(st["cur"]["atoms"]) == 1 and st["cur"]["src"] == "direct" and st["cur"]["wrap"] == "direct":
                         st["done"] = True
         for k, st in enumerate(state):
-            if not st["done"] and k not in progressed and rnd >= 2:
+            if not st["done"] and k not in progressed:
                 st["done"] = True     # no smaller candidate still fails: current is 1-minimal
-        # (round 1 only tries the atoms in isolation; when none of them fails alone the drop-one rounds start)
     out = []
     for st in state:
         cur = st["cur"]
